@@ -51,9 +51,16 @@ func (v valueReader) Read(r io.Reader) ([]byte, error) {
 	if err != nil {
 		return nil, fmt.Errorf("read signature: %s", err)
 	}
-	reader, err := MakeReader(sig)
-	if err != nil {
-		return nil, err
+	var reader TypeReader
+	if sig == "r" {
+		// a raw buffer is not a type of the signature grammar: it
+		// only exists as a value and is laid out like a string.
+		reader = stringReader{}
+	} else {
+		reader, err = MakeReader(sig)
+		if err != nil {
+			return nil, err
+		}
 	}
 	data, err := reader.Read(r)
 	if err != nil {
